@@ -895,7 +895,17 @@ impl Version {
                                     && x.last_key.as_slice() <= last_key)
                                 && !compaction.inputs.contains(&Setsum::from_digest(x.setsum))
                         });
-                    if !strands_sibling {
+                    // An sst can only be pulled in if every sst it overlaps in the levels between
+                    // it and the output level is part of the compaction; otherwise its data would
+                    // move below older data that stays behind.
+                    let jumps_over = (level + 1..=compaction.upper_level).any(|l| {
+                        self.levels[l].ssts.iter().any(|x| {
+                            x.first_key <= sst.last_key
+                                && sst.first_key <= x.last_key
+                                && !compaction.inputs.contains(&Setsum::from_digest(x.setsum))
+                        })
+                    });
+                    if !strands_sibling && !jumps_over {
                         to_add.push(sst);
                     }
                 }
